@@ -552,6 +552,13 @@ class Ctx:
         if z3.is_false(sg):
             self._record(label, 'unsat', tier=0, t=0.0)
             return True
+        # polynomial identities are decided by z3's rewriter (sum-of-monomials normal form) before nlsat is asked
+        diff = ta - tb
+        if _expanded_size(diff, 20000) <= 20000:
+            nf = z3.simplify(diff, som=True, sort_sums=True)
+            if const_of(nf) == 0:
+                self._record(label, 'unsat', tier=0, t=round(time.time() - t0, 3), by='normal-form')
+                return True
         ca, cb = const_of(z3.simplify(ta)), const_of(z3.simplify(tb))
         if ca is not None and cb is not None:
             ok = abs(ca - cb) <= Fraction(1, 10 ** 12) * (abs(ca) + abs(cb))
@@ -973,6 +980,7 @@ for _n in FLOAT_IMPL:
 
 
 def _expanded_size(t, cap=3000):
+    cap = int(cap)
     """estimate of the number of monomials after expanding products of sums (memoised on the DAG)"""
     memo = {}
 
